@@ -66,6 +66,32 @@ func Lookup(id string) *core.Check {
 		case htmlSpiced[id]:
 			ch.Spice, ch.SpiceCall = htmlSpice, func(s string) { li.IsXSS(s) }
 		}
+		wrapS := "one-token units repeated an exact number of times around 2^8 and 2^16 between two halves of an attack (counter wrap-around)"
+		aliasS := "every single-word table key with one letter written as its non-ASCII case-mapping alias (KELVIN SIGN, LONG S, dotless/dotted I, fullwidth)"
+		qualS := "every table word behind 15 owner / schema qualifiers; every literal form glued to 29 preceding tokens and followed by 15 kinds of white space and another literal"
+		seamS := "two features k x 64 KiB apart (k = 1-32, thorough 1-64, each -1/0/+1 byte)"
+		attrS := "~170 attribute names of HTML / SVG / MathML x ~80 value shapes with empty, doubled or cut-off list, pair and reference syntax"
+		aliasH := "tags, attributes, events and schemes of the live tables with one letter written as its non-ASCII case-mapping alias; one-token units repeated an exact number of times around 2^8 and 2^16"
+		var parts []string
+		switch id {
+		case "C01":
+			parts = []string{wrapS, aliasS, qualS}
+		case "C06", "C16":
+			parts = []string{wrapS, aliasS, qualS, seamS}
+		case "C08", "C12":
+			parts = []string{wrapS, aliasS, qualS, seamS, "bodies of 100 and 128 MiB (thorough up to 256 MiB)"}
+		case "C10":
+			parts = []string{qualS}
+		case "C02":
+			parts = []string{attrS, aliasH}
+		case "C07", "C13", "C17":
+			parts = []string{attrS, aliasH, seamS}
+		case "C11":
+			parts = []string{attrS}
+		}
+		if len(parts) > 0 {
+			ch.Rule += " Shared workload additions: " + strings.Join(parts, "; ") + "."
+		}
 		if ch.SpiceCall != nil {
 			ch.Rule += " Before every 61st case each worker feeds two of " + map[bool]string{true: "32", false: "38"}[sqlSpiced[id]] + " fixed history inputs (inputs ending inside a construct, positives, rare rules, the empty string) to the public entry point, results ignored; a violation that a lone call in a fresh process does not show is probed again in a fresh process after the calls recorded before it and is then reported as <kind>-after-history."
 		}
